@@ -10,6 +10,10 @@
                 (2^32): the stated price of the 32-bit tag                                *)
 From ZV.Common Require Import Base.
 From ZV.C08 Require Import Model ProofsInv ProofsStep ProofsRefute ProofsRun.
+From ZV.C08 Require Import ModelFixedCap ProofsFixedCapRun Cases.
+From ZV.C08 Require Import ModelStats ModelVariants ProofsTagged2.
+From ZV.C08 Require Import ModelSecure ProofsSecureInv ProofsSecureRun.
+From ZV.C08 Require Import ModelMemPool ProofsMemPool.
 Open Scope N_scope.
 
 (* each block is owned by at most one thread at a time, under every interleaving *)
@@ -159,3 +163,404 @@ Theorem treiber_uaf_refuted : exists sc, tfault (trun (tinit 2) sc) = true.
 Proof. exact treiber_uaf_refuted_proof. Qed.
 Check treiber_uaf_refuted : exists sc, tfault (trun (tinit 2) sc) = true.
 Print Assumptions treiber_uaf_refuted.
+
+(* ==========================================================================================
+   FixedCapacityMemoryPool (src/memory/fixed_capacity_pool.rs): one generation-tagged free list
+   per size class, all blocks initially on the list of the largest class, requests of a
+   smaller class walk up the classes (allocate_by_splitting, recursively) and free onto their
+   own class.  c : fcfg (fc_code ncls bs total clear csz is the code), frun c (finit n c) sc the
+   state after n threads executed schedule sc; fnc s < fc_gmod c: fewer than 2^32 successful
+   compare-exchanges in total.
+   ========================================================================================== *)
+
+(* each block is owned by at most one thread at a time, under every interleaving *)
+Theorem fixedcap_no_double_owner :
+  forall c, fcfg_wf c -> forall n sc, fnc (frun c (finit n c) sc) < fc_gmod c ->
+  forall t1 t2 l1 l2 b, t1 <> t2 ->
+    nth_error (fthr (frun c (finit n c) sc)) t1 = Some l1 ->
+    nth_error (fthr (frun c (finit n c) sc)) t2 = Some l2 ->
+    In b (fholds l1) -> ~ In b (fholds l2).
+Proof. intros c (H1 & H2 & H3). exact (fc_no_double_owner_proof c H1 H2 H3). Qed.
+Check fixedcap_no_double_owner :
+  forall c, fcfg_wf c -> forall n sc, fnc (frun c (finit n c) sc) < fc_gmod c ->
+  forall t1 t2 l1 l2 b, t1 <> t2 ->
+    nth_error (fthr (frun c (finit n c) sc)) t1 = Some l1 ->
+    nth_error (fthr (frun c (finit n c) sc)) t2 = Some l2 ->
+    In b (fholds l1) -> ~ In b (fholds l2).
+Print Assumptions fixedcap_no_double_owner.
+
+(* no block is lost and a freed block is available exactly once: every block of the pool is on exactly one
+   class's free list (as the code traverses it) and in nobody's hands, or in some thread's hands and on no list *)
+Theorem fixedcap_no_block_lost :
+  forall c, fcfg_wf c -> forall n sc, fnc (frun c (finit n c) sc) < fc_gmod c ->
+  let s := frun c (finit n c) sc in
+  forall k, k < fc_total c -> let b := k * fc_bs c in
+    exists frees : nat -> list N,
+      (forall i, fwalk s (length (frees i)) i = Some (frees i)) /\
+      ((exists i, In b (frees i) /\ (forall j, j <> i -> ~ In b (frees j)) /\
+                  forall t l, nth_error (fthr s) t = Some l -> ~ In b (fholds l)) \/
+       ((forall i, ~ In b (frees i)) /\ exists t l, nth_error (fthr s) t = Some l /\ In b (fholds l))).
+Proof. intros c (H1 & H2 & H3). exact (fc_no_block_lost_proof c H1 H2 H3). Qed.
+Check fixedcap_no_block_lost :
+  forall c, fcfg_wf c -> forall n sc, fnc (frun c (finit n c) sc) < fc_gmod c ->
+  let s := frun c (finit n c) sc in
+  forall k, k < fc_total c -> let b := k * fc_bs c in
+    exists frees : nat -> list N,
+      (forall i, fwalk s (length (frees i)) i = Some (frees i)) /\
+      ((exists i, In b (frees i) /\ (forall j, j <> i -> ~ In b (frees j)) /\
+                  forall t l, nth_error (fthr s) t = Some l -> ~ In b (fholds l)) \/
+       ((forall i, ~ In b (frees i)) /\ exists t l, nth_error (fthr s) t = Some l /\ In b (fholds l))).
+Print Assumptions fixedcap_no_block_lost.
+
+(* every class's free list ends in LIST_TAIL after finitely many links, without repetition (no cycle), consists of
+   blocks of the pool (no dangling link) that no thread owns, and no block is on two lists *)
+Theorem fixedcap_free_lists_well_formed :
+  forall c, fcfg_wf c -> forall n sc, fnc (frun c (finit n c) sc) < fc_gmod c ->
+  let s := frun c (finit n c) sc in
+  exists frees : nat -> list N,
+    (forall i, fwalk s (length (frees i)) i = Some (frees i) /\ NoDup (frees i)) /\
+    (forall i b, In b (frees i) -> fblock c b /\
+        (forall j, j <> i -> ~ In b (frees j)) /\
+        (forall t l, nth_error (fthr s) t = Some l -> ~ In b (fholds l))).
+Proof. intros c (H1 & H2 & H3). exact (fc_free_lists_well_formed_proof c H1 H2 H3). Qed.
+Check fixedcap_free_lists_well_formed :
+  forall c, fcfg_wf c -> forall n sc, fnc (frun c (finit n c) sc) < fc_gmod c ->
+  let s := frun c (finit n c) sc in
+  exists frees : nat -> list N,
+    (forall i, fwalk s (length (frees i)) i = Some (frees i) /\ NoDup (frees i)) /\
+    (forall i b, In b (frees i) -> fblock c b /\
+        (forall j, j <> i -> ~ In b (frees j)) /\
+        (forall t l, nth_error (fthr s) t = Some l -> ~ In b (fholds l))).
+Print Assumptions fixedcap_free_lists_well_formed.
+
+(* a thread never holds the same block twice *)
+Theorem fixedcap_holds_nodup :
+  forall c, fcfg_wf c -> forall n sc, fnc (frun c (finit n c) sc) < fc_gmod c ->
+  forall t l, nth_error (fthr (frun c (finit n c) sc)) t = Some l -> NoDup (fholds l).
+Proof. intros c (H1 & H2 & H3). exact (fc_holds_nodup_proof c H1 H2 H3). Qed.
+Check fixedcap_holds_nodup :
+  forall c, fcfg_wf c -> forall n sc, fnc (frun c (finit n c) sc) < fc_gmod c ->
+  forall t l, nth_error (fthr (frun c (finit n c) sc)) t = Some l -> NoDup (fholds l).
+Print Assumptions fixedcap_holds_nodup.
+
+(* the count of every class equals the length of its free list once all threads are done *)
+Theorem fixedcap_count_at_quiescence :
+  forall c, fcfg_wf c -> forall n sc, fnc (frun c (finit n c) sc) < fc_gmod c ->
+  let s := frun c (finit n c) sc in fquiescent s ->
+  forall i, exists free, fwalk s (length free) i = Some free /\ fcount s i = N.of_nat (length free) mod W32.
+Proof. intros c (H1 & H2 & H3). exact (fc_count_at_quiescence_proof c H1 H2 H3). Qed.
+Check fixedcap_count_at_quiescence :
+  forall c, fcfg_wf c -> forall n sc, fnc (frun c (finit n c) sc) < fc_gmod c ->
+  let s := frun c (finit n c) sc in fquiescent s ->
+  forall i, exists free, fwalk s (length free) i = Some free /\ fcount s i = N.of_nat (length free) mod W32.
+Print Assumptions fixedcap_count_at_quiescence.
+
+(* the statistics add up at quiescence, for every schedule (no hypothesis on the generation): active_blocks is the
+   number of blocks in the threads' hands, allocations = deallocations + active_blocks, peak_blocks >= active_blocks *)
+Theorem fixedcap_stats_at_quiescence :
+  forall c n sc, let s := frun c (finit n c) sc in fquiescent s ->
+  fs_active (fstats s) = N.of_nat (length (concat (map fheld (fthr s)))) /\
+  fs_alloc (fstats s) = fs_dealloc (fstats s) + fs_active (fstats s) /\
+  fs_active (fstats s) <= fs_peak (fstats s).
+Proof. exact fstats_at_quiescence_proof. Qed.
+Check fixedcap_stats_at_quiescence :
+  forall c n sc, let s := frun c (finit n c) sc in fquiescent s ->
+  fs_active (fstats s) = N.of_nat (length (concat (map fheld (fthr s)))) /\
+  fs_alloc (fstats s) = fs_dealloc (fstats s) + fs_active (fstats s) /\
+  fs_active (fstats s) <= fs_peak (fstats s).
+Print Assumptions fixedcap_stats_at_quiescence.
+
+(* the hypothesis on the generation holds for every schedule of fewer than 2^32 steps *)
+Theorem fixedcap_generation_bound_by_steps :
+  forall c n sc, N.of_nat (length sc) < fc_gmod c -> fnc (frun c (finit n c) sc) < fc_gmod c.
+Proof. exact fc_steps_bound_generation. Qed.
+Check fixedcap_generation_bound_by_steps :
+  forall c n sc, N.of_nat (length sc) < fc_gmod c -> fnc (frun c (finit n c) sc) < fc_gmod c.
+Print Assumptions fixedcap_generation_bound_by_steps.
+
+(* the configurations FixedCapacityMemoryPool::new accepts satisfy the side conditions *)
+Theorem fixedcap_code_cfg_wf :
+  forall ncls bs total clear csz, 0 < bs -> 0 < total -> total * bs <= W32 - 1 ->
+  fcfg_wf (fc_code ncls bs total clear csz).
+Proof. exact fc_code_wf. Qed.
+Check fixedcap_code_cfg_wf :
+  forall ncls bs total clear csz, 0 < bs -> 0 < total -> total * bs <= W32 - 1 ->
+  fcfg_wf (fc_code ncls bs total clear csz).
+Print Assumptions fixedcap_code_cfg_wf.
+
+(* with a bare offset as head (the code before fix 8b0a274) two threads end up owning block 16 *)
+Theorem fixedcap_untagged_refuted :
+  exists sc b l0 l1,
+    let s := frun fc_aba_cfg (finit 2 fc_aba_cfg) sc in
+    nth_error (fthr s) 0 = Some l0 /\ nth_error (fthr s) 1 = Some l1 /\
+    In b (fholds l0) /\ In b (fholds l1).
+Proof. exact fixedcap_untagged_refuted_proof. Qed.
+Check fixedcap_untagged_refuted :
+  exists sc b l0 l1,
+    let s := frun fc_aba_cfg (finit 2 fc_aba_cfg) sc in
+    nth_error (fthr s) 0 = Some l0 /\ nth_error (fthr s) 1 = Some l1 /\
+    In b (fholds l0) /\ In b (fholds l1).
+Print Assumptions fixedcap_untagged_refuted.
+
+(* ==========================================================================================
+   More about the tagged stack of lockfree_pool.rs / five_level_pool.rs: generation, the scrub
+   of deallocate_with_zero, the reported counters (ModelStats.v), and the three seeded variants
+   (ModelVariants.v).
+   ========================================================================================== *)
+
+(* the generation of the head never decreases along a run, whatever happens to the list (in particular when a pop
+   empties it), and always equals the number of successful compare-exchanges *)
+Theorem tagged_generation_monotone :
+  forall c, cfg_wf c -> forall n sc1 sc2, ncas (run c (init n c) (sc1 ++ sc2)) < gmod c ->
+  gen (run c (init n c) sc1) <= gen (run c (init n c) (sc1 ++ sc2)) /\
+  gen (run c (init n c) (sc1 ++ sc2)) = ncas (run c (init n c) (sc1 ++ sc2)).
+Proof. intros c [H1 H2]. exact (generation_monotone_proof c H1 H2). Qed.
+Check tagged_generation_monotone :
+  forall c, cfg_wf c -> forall n sc1 sc2, ncas (run c (init n c) (sc1 ++ sc2)) < gmod c ->
+  gen (run c (init n c) sc1) <= gen (run c (init n c) (sc1 ++ sc2)) /\
+  gen (run c (init n c) (sc1 ++ sc2)) = ncas (run c (init n c) (sc1 ++ sc2)).
+Print Assumptions tagged_generation_monotone.
+
+(* the pop of the last block made explicit: a thread about to exchange (h, g) for (LIST_TAIL, g + 1) whose
+   exchange succeeds leaves the head at (LIST_TAIL, g + 1) - an empty list with a non-zero generation *)
+Theorem tagged_pop_last_keeps_generation :
+  forall c, cfg_wf c -> forall n sc t hl h g,
+  let s := run c (init n c) sc in
+  ncas s + 1 < gmod c ->
+  nth_error (thr s) t = Some {| pc := PopRead h g (tail c); held := hl |} ->
+  head s = h -> gen s = g ->
+  let s' := fst (step c s t CNone) in
+  head s' = tail c /\ gen s' = g + 1 /\ 0 < gen s' /\ fl s' = [].
+Proof. intros c [H1 H2]. exact (pop_last_keeps_generation_proof c H1 H2). Qed.
+Check tagged_pop_last_keeps_generation :
+  forall c, cfg_wf c -> forall n sc t hl h g,
+  let s := run c (init n c) sc in
+  ncas s + 1 < gmod c ->
+  nth_error (thr s) t = Some {| pc := PopRead h g (tail c); held := hl |} ->
+  head s = h -> gen s = g ->
+  let s' := fst (step c s t CNone) in
+  head s' = tail c /\ gen s' = g + 1 /\ 0 < gen s' /\ fl s' = [].
+Print Assumptions tagged_pop_last_keeps_generation.
+
+(* deallocate_with_zero: whenever a thread's next step scrubs block b, b is on no free list and in no other
+   thread's hands; the link words of all listed blocks and the traversed free list are the same after the step *)
+Theorem zero_on_free_never_touches_listed_block :
+  forall c, cfg_wf c -> forall n sc, ncas (run c (init n c) sc) < gmod c ->
+  let s := run c (init n c) sc in
+  forall t k b, zero_target s t k = Some b ->
+    exists free, walk (length free) (tail c) (nxt s) (head s) = Some free /\ ~ In b free /\
+      (forall x, In x free -> nxt (fst (step c s t k)) x = nxt s x) /\
+      walk (length free) (tail c) (nxt (fst (step c s t k))) (head (fst (step c s t k))) = Some free /\
+      (forall t' l', t' <> t -> nth_error (thr s) t' = Some l' -> ~ In b (holds l')).
+Proof. intros c [H1 H2]. exact (zero_on_free_proof c H1 H2). Qed.
+Check zero_on_free_never_touches_listed_block :
+  forall c, cfg_wf c -> forall n sc, ncas (run c (init n c) sc) < gmod c ->
+  let s := run c (init n c) sc in
+  forall t k b, zero_target s t k = Some b ->
+    exists free, walk (length free) (tail c) (nxt s) (head s) = Some free /\ ~ In b free /\
+      (forall x, In x free -> nxt (fst (step c s t k)) x = nxt s x) /\
+      walk (length free) (tail c) (nxt (fst (step c s t k))) (head (fst (step c s t k))) = Some free /\
+      (forall t' l', t' <> t -> nth_error (thr s) t' = Some l' -> ~ In b (holds l')).
+Print Assumptions zero_on_free_never_touches_listed_block.
+
+(* the counters both pools report are exact once all threads are done, under every interleaving: count = length
+   of the free list, fragment_size = length x block size (five-level), fast_deallocs = number of free calls = number
+   of successful push exchanges, fast_allocs = number of successful pop exchanges = fast_deallocs - length,
+   cas_successes = their sum, memory_usage = bytes carved (lockfree), blocks handed out = frees + blocks held,
+   and blocks handed out = fast_allocs + blocks carved *)
+Theorem counters_exact_at_quiescence :
+  forall c, cfg_wf c -> forall n sc, ncas (run c (init n c) sc) < gmod c ->
+  let x := xrun c (xinit n c) sc in
+  quiescent (xs x) ->
+  exists free, walk (length free) (tail c) (nxt (xs x)) (head (xs x)) = Some free /\
+    count (xs x) = N.of_nat (length free) mod W32 /\
+    frag (xst x) = (N.of_nat (length free) * bsize c) mod W64 /\
+    fast_deallocs (xst x) = g_frees (xst x) /\
+    fast_deallocs (xst x) = g_npush (xst x) /\ fast_allocs (xst x) = g_npop (xst x) /\
+    fast_deallocs (xst x) = fast_allocs (xst x) + N.of_nat (length free) /\
+    cas_ok (xst x) = fast_allocs (xst x) + fast_deallocs (xst x) /\
+    (lfkind c = true -> mem_usage (xst x) + bump0 c = bump (xs x)) /\
+    g_got (xst x) = g_frees (xst x) + N.of_nat (length (concat (map held (thr (xs x))))) /\
+    bump (xs x) + fast_allocs (xst x) * bsize c = bump0 c + g_got (xst x) * bsize c.
+Proof. intros c [H1 H2]. exact (counters_exact_proof c H1 H2). Qed.
+Check counters_exact_at_quiescence :
+  forall c, cfg_wf c -> forall n sc, ncas (run c (init n c) sc) < gmod c ->
+  let x := xrun c (xinit n c) sc in
+  quiescent (xs x) ->
+  exists free, walk (length free) (tail c) (nxt (xs x)) (head (xs x)) = Some free /\
+    count (xs x) = N.of_nat (length free) mod W32 /\
+    frag (xst x) = (N.of_nat (length free) * bsize c) mod W64 /\
+    fast_deallocs (xst x) = g_frees (xst x) /\
+    fast_deallocs (xst x) = g_npush (xst x) /\ fast_allocs (xst x) = g_npop (xst x) /\
+    fast_deallocs (xst x) = fast_allocs (xst x) + N.of_nat (length free) /\
+    cas_ok (xst x) = fast_allocs (xst x) + fast_deallocs (xst x) /\
+    (lfkind c = true -> mem_usage (xst x) + bump0 c = bump (xs x)) /\
+    g_got (xst x) = g_frees (xst x) + N.of_nat (length (concat (map held (thr (xs x))))) /\
+    bump (xs x) + fast_allocs (xst x) * bsize c = bump0 c + g_got (xst x) * bsize c.
+Print Assumptions counters_exact_at_quiescence.
+
+(* variant: a pop that empties the bin stores generation 0 - two threads end up owning block 72 although the
+   generation is far from wrapping *)
+Theorem generation_reset_refuted :
+  exists sc b l0 l1,
+    let s := vrun VResetGen reset_cfg (init 2 reset_cfg) sc in
+    ncas s < gmod reset_cfg /\
+    nth_error (thr s) 0 = Some l0 /\ nth_error (thr s) 1 = Some l1 /\
+    In b (holds l0) /\ In b (holds l1).
+Proof. exact generation_reset_refuted_proof. Qed.
+Check generation_reset_refuted :
+  exists sc b l0 l1,
+    let s := vrun VResetGen reset_cfg (init 2 reset_cfg) sc in
+    ncas s < gmod reset_cfg /\
+    nth_error (thr s) 0 = Some l0 /\ nth_error (thr s) 1 = Some l1 /\
+    In b (holds l0) /\ In b (holds l1).
+Print Assumptions generation_reset_refuted.
+
+(* variant: free counts the block before the compare-exchange, inside the retry loop - after one lost race the
+   bin reports 3 blocks for a list of 2 *)
+Theorem count_before_cas_refuted :
+  exists sc, let s := vrun VCountEarly early_cfg (init 2 early_cfg) sc in
+    all_idle s = true /\ walk 8 (tail early_cfg) (nxt s) (head s) = Some [0; 64] /\ count s = 3.
+Proof. exact count_before_cas_refuted_proof. Qed.
+Check count_before_cas_refuted :
+  exists sc, let s := vrun VCountEarly early_cfg (init 2 early_cfg) sc in
+    all_idle s = true /\ walk 8 (tail early_cfg) (nxt s) (head s) = Some [0; 64] /\ count s = 3.
+Print Assumptions count_before_cas_refuted.
+
+(* variant: deallocate_with_zero pushes first and scrubs afterwards - block 8 is carved, in nobody's hands and
+   no longer on the list *)
+Theorem zero_after_push_refuted :
+  exists sc, let s := vrun VZeroLate zlate_cfg (init 1 zlate_cfg) sc in
+    all_idle s = true /\ 8 < bump s /\
+    walk 8 (tail zlate_cfg) (nxt s) (head s) = Some [72] /\ all_holds s = [].
+Proof. exact zero_after_push_refuted_proof. Qed.
+Check zero_after_push_refuted :
+  exists sc, let s := vrun VZeroLate zlate_cfg (init 1 zlate_cfg) sc in
+    all_idle s = true /\ 8 < bump s /\
+    walk 8 (tail zlate_cfg) (nxt s) (head s) = Some [72] /\ all_holds s = [].
+Print Assumptions zero_after_push_refuted.
+
+(* ==========================================================================================
+   SecureMemoryPool (src/memory/secure_pool.rs): per-thread caches in front of the shared Treiber
+   stack, next_generation, the active-allocation table, the counters (ModelSecure.v).  c : scfg
+   gives local_cache_size and the behaviour of the system allocator for stack nodes:
+   s_reuse c = false - a node address is never handed out twice while the pool lives;
+   s_reuse c = true - any address that is currently free (what malloc does).  The positive
+   theorems are for the first machine, over any number of threads and all schedules; the
+   refutation is the same machine with the second allocator (findings secure_stack_aba /
+   secure_stack_use_after_free, next to treiber_aba_refuted / treiber_uaf_refuted above).
+   ========================================================================================== *)
+
+(* the shared stack as the code traverses it is finite, consists of live nodes and has no repetition, and every
+   chunk ever created (serial below snew) occurs exactly once among the threads' hands, their caches, the pushes in
+   flight and that stack; nothing else occurs anywhere: no chunk is lost, none is available twice *)
+Theorem secure_concurrent_no_chunk_lost :
+  forall c, s_reuse c = false -> forall n sc,
+  let s := srun c (sinit n) sc in
+  exists stack, swalk (length stack) s (shead s) = Some stack /\ NoDup stack /\
+    forall x, (occ x (concat (map splaces (sthr s)) ++ map (fun a => fst (sdata s a)) stack) =
+               b2n (N.ltb x (snew s)))%nat.
+Proof. exact secure_no_chunk_lost_proof. Qed.
+Check secure_concurrent_no_chunk_lost :
+  forall c, s_reuse c = false -> forall n sc,
+  let s := srun c (sinit n) sc in
+  exists stack, swalk (length stack) s (shead s) = Some stack /\ NoDup stack /\
+    forall x, (occ x (concat (map splaces (sthr s)) ++ map (fun a => fst (sdata s a)) stack) =
+               b2n (N.ltb x (snew s)))%nat.
+Print Assumptions secure_concurrent_no_chunk_lost.
+
+(* no chunk is in the hands of two threads *)
+Theorem secure_concurrent_no_double_owner :
+  forall c, s_reuse c = false -> forall n sc,
+  let s := srun c (sinit n) sc in
+  forall t1 t2 l1 l2 ch1 ch2, t1 <> t2 ->
+    nth_error (sthr s) t1 = Some l1 -> nth_error (sthr s) t2 = Some l2 ->
+    In ch1 (sheld l1) -> In ch2 (sheld l2) -> fst ch1 <> fst ch2.
+Proof. exact secure_no_double_owner_proof. Qed.
+Check secure_concurrent_no_double_owner :
+  forall c, s_reuse c = false -> forall n sc,
+  let s := srun c (sinit n) sc in
+  forall t1 t2 l1 l2 ch1 ch2, t1 <> t2 ->
+    nth_error (sthr s) t1 = Some l1 -> nth_error (sthr s) t2 = Some l2 ->
+    In ch1 (sheld l1) -> In ch2 (sheld l2) -> fst ch1 <> fst ch2.
+Print Assumptions secure_concurrent_no_double_owner.
+
+(* the active-allocation table knows every chunk in a thread's hands with its generation, so a guard drop never
+   takes the double-free error path (which would drop the chunk) *)
+Theorem secure_concurrent_free_finds_its_chunk :
+  forall c, s_reuse c = false -> forall n sc,
+  let s := srun c (sinit n) sc in
+  forall t l ch, nth_error (sthr s) t = Some l -> In ch (sheld l) -> sact s (fst ch) = Some (snd ch).
+Proof. exact secure_held_in_table_proof. Qed.
+Check secure_concurrent_free_finds_its_chunk :
+  forall c, s_reuse c = false -> forall n sc,
+  let s := srun c (sinit n) sc in
+  forall t l ch, nth_error (sthr s) t = Some l -> In ch (sheld l) -> sact s (fst ch) = Some (snd ch).
+Print Assumptions secure_concurrent_free_finds_its_chunk.
+
+(* once all threads are done pool_hits + pool_misses = alloc_count, local_cache_hits + cross_thread_steals =
+   pool_hits, and no double free was reported *)
+Theorem secure_counters_at_quiescence :
+  forall c, s_reuse c = false -> forall n sc,
+  let s := srun c (sinit n) sc in squiescent s ->
+  c_hits (scnt s) + c_misses (scnt s) = c_alloc (scnt s) /\
+  c_local (scnt s) + c_steals (scnt s) = c_hits (scnt s) /\ c_dbl (scnt s) = 0.
+Proof. exact secure_counters_proof. Qed.
+Check secure_counters_at_quiescence :
+  forall c, s_reuse c = false -> forall n sc,
+  let s := srun c (sinit n) sc in squiescent s ->
+  c_hits (scnt s) + c_misses (scnt s) = c_alloc (scnt s) /\
+  c_local (scnt s) + c_steals (scnt s) = c_hits (scnt s) /\ c_dbl (scnt s) = 0.
+Print Assumptions secure_counters_at_quiescence.
+
+(* with an allocator that recycles node addresses (malloc) the same machine hands chunk 0 to two threads: the
+   stale compare-exchange of a pop succeeds on a recycled address and installs a freed node as head *)
+Theorem secure_concurrent_reuse_refuted :
+  exists sc l0 l1 ch,
+    let s := srun sreuse_cfg (sinit 2) sc in
+    nth_error (sthr s) 0 = Some l0 /\ nth_error (sthr s) 1 = Some l1 /\
+    In ch (sheld l0) /\ In ch (sheld l1).
+Proof. exact secure_reuse_refuted_proof. Qed.
+Check secure_concurrent_reuse_refuted :
+  exists sc l0 l1 ch,
+    let s := srun sreuse_cfg (sinit 2) sc in
+    nth_error (sthr s) 0 = Some l0 /\ nth_error (sthr s) 1 = Some l1 /\
+    In ch (sheld l0) /\ In ch (sheld l1).
+Print Assumptions secure_concurrent_reuse_refuted.
+
+(* ==========================================================================================
+   MemoryPool (src/memory/pool.rs): a VecDeque of pooled chunks behind a mutex that is only ever
+   try_lock-ed (a busy lock sends an allocation to the system allocator and a free to direct
+   release), byte accounting under a blocking write lock (repair e88cf6d), atomic counters
+   (ModelMemPool.v).  Any number of threads, all schedules, no hypothesis.
+   ========================================================================================== *)
+
+(* once all threads are done: stats.allocated = chunk_size x (pooled chunks + chunks in the threads' hands) - the
+   saturating subtraction never saturated and no update was skipped -, pool_hits + pool_misses = alloc_count, the
+   queue lock is free, at most max_chunks chunks are pooled, and no chunk is pooled twice or pooled and held *)
+Theorem mempool_accounting_exact_at_quiescence :
+  forall c n sc,
+  let s := mrun c (minit n) sc in mquiescent s ->
+  mallocated s = m_csize c * N.of_nat (length (mqueue s) + length (concat (map mheld (mthr s)))) /\
+  mc_hits s + mc_misses s = mc_alloc s /\ mlock s = None /\
+  N.of_nat (length (mqueue s)) <= m_max c /\
+  NoDup (mqueue s ++ concat (map mheld (mthr s))).
+Proof. exact mempool_accounting_proof. Qed.
+Check mempool_accounting_exact_at_quiescence :
+  forall c n sc,
+  let s := mrun c (minit n) sc in mquiescent s ->
+  mallocated s = m_csize c * N.of_nat (length (mqueue s) + length (concat (map mheld (mthr s)))) /\
+  mc_hits s + mc_misses s = mc_alloc s /\ mlock s = None /\
+  N.of_nat (length (mqueue s)) <= m_max c /\
+  NoDup (mqueue s ++ concat (map mheld (mthr s))).
+Print Assumptions mempool_accounting_exact_at_quiescence.
+
+(* in every reachable state no chunk is in two places (pooled, in a thread's hands, or carried through an operation) *)
+Theorem mempool_no_chunk_in_two_places :
+  forall c n sc,
+  let s := mrun c (minit n) sc in NoDup (mqueue s ++ concat (map mplaces (mthr s))).
+Proof. exact mempool_unique_proof. Qed.
+Check mempool_no_chunk_in_two_places :
+  forall c n sc,
+  let s := mrun c (minit n) sc in NoDup (mqueue s ++ concat (map mplaces (mthr s))).
+Print Assumptions mempool_no_chunk_in_two_places.
